@@ -369,7 +369,58 @@ fn avk_orders() -> String {
             }
         }
     }
-    if bad == 0 { "agree over 6 orders".to_string() } else { format!("VIOLATED {} of 5 orders differ from the first", bad) }
+    let mut out = vec![if bad == 0 { "agree over 6 orders".to_string() } else { format!("VIOLATED {} of 5 orders differ from the first", bad) }];
+    // a retried (rejected) registration must not change what the registration closes to
+    {
+        let close = |hist: &[usize]| -> (String, u64) {
+            let mut key_reg = KeyRegistration::initialize();
+            for i in hist.iter() {
+                let p = &inits[*i];
+                let entry = RegistrationEntry::new(p.get_verification_key_proof_of_possession_for_concatenation(), p.stake).unwrap();
+                let _ = key_reg.register_by_entry(&entry);
+            }
+            let closed = key_reg.close_registration(&params).unwrap();
+            let total = closed.total_stake;
+            let signer = inits[0].clone().try_create_signer::<D>(&closed).unwrap();
+            (format!("{:?}", Clerk::new_clerk_from_signer(&signer).compute_aggregate_verification_key().to_concatenation_aggregate_verification_key().to_bytes().unwrap()), total)
+        };
+        let plain = close(&[0, 1, 2]);
+        let same = [vec![0usize, 0, 1, 2], vec![0, 1, 2, 0], vec![0, 1, 2, 2], vec![0, 1, 0, 2, 1]].iter().all(|h| close(h) == plain);
+        out.push(format!("retry_histories={}", if same { "agree" } else { "VIOLATED differ" }));
+    }
+    // a total stake that does not fit in u64 must not close
+    {
+        let mut key_reg = KeyRegistration::initialize();
+        let mut rng2 = ChaCha20Rng::from_seed([5u8; 32]);
+        let mut refused_early = false;
+        for stake in [5u64, 9, 1u64 << 63, 1u64 << 63] {
+            let p = Initializer::new(params, stake, &mut rng2);
+            let entry = RegistrationEntry::new(p.get_verification_key_proof_of_possession_for_concatenation(), p.stake).unwrap();
+            refused_early |= key_reg.register_by_entry(&entry).is_err();
+        }
+        let r = catch(move || match key_reg.close_registration(&params) {
+            Ok(c) if !refused_early => format!("VIOLATED closed with total {}", c.total_stake),
+            _ => "refused".to_string(),
+        });
+        out.push(format!("overflowing_total={}", r));
+    }
+    // the key order must tell a key from its negation (same x coordinate, only the sign flag of the encoding differs)
+    {
+        use mithril_stm::VerificationKeyForConcatenation as Vk;
+        let a = inits[0].get_verification_key_proof_of_possession_for_concatenation().vk;
+        let mut bytes = a.to_bytes();
+        bytes[0] ^= 0x20;
+        match Vk::from_bytes(&bytes) {
+            Ok(neg) => {
+                let o1 = a.cmp(&neg);
+                let o2 = neg.cmp(&a);
+                let ok = a != neg && o1 != std::cmp::Ordering::Equal && o1 == o2.reverse();
+                out.push(format!("key_order_negated_key={}", if ok { "distinguished".to_string() } else { format!("VIOLATED {:?}/{:?}", o1, o2) }));
+            }
+            Err(_) => out.push("key_order_negated_key=scenario-not-built".to_string()),
+        }
+    }
+    out.join(" ")
 }
 
 /// quorum selection under repeated / re-submitted / corrupted copies (phi_f = 1: every index wins, so every index
@@ -407,6 +458,7 @@ fn main() {
     let out = match a.first().map(|s| s.as_str()) {
         Some("index_at_m") => index_at_m(),
         Some("duplicate") => duplicate(),
+        Some("pop_halves") => pop_halves(),
         Some("merkle_forge") => merkle_forge(&a[1]),
         Some("sample_points") => {
             let params = Parameters { m: 4, k: 2, phi_f: 1.0 };
@@ -509,4 +561,47 @@ fn merkle_forge(spec: &str) -> String {
         Err(e) => format!("rejected (decode: {})", e),
     };
     format!("control={} forged={}", if control { "ok" } else { "MISMATCH" }, r.chars().take(120).collect::<String>())
+}
+
+
+/// proofs of possession with one genuine and one foreign half, and duplicate keys: registration must refuse them
+fn pop_halves() -> String {
+    use mithril_stm::VerificationKeyProofOfPossessionForConcatenation as VkPop;
+    let params = Parameters { m: 4, k: 2, phi_f: 1.0 };
+    let mut rng = ChaCha20Rng::from_seed([11u8; 32]);
+    let a = Initializer::new(params, 10, &mut rng);
+    let b = Initializer::new(params, 20, &mut rng);
+    let ab = a.get_verification_key_proof_of_possession_for_concatenation().to_bytes();
+    let bb = b.get_verification_key_proof_of_possession_for_concatenation().to_bytes();
+    // layout: vk (96) | k1 (48) | k2 (48)
+    let splice = |k1: &[u8], k2: &[u8]| -> Vec<u8> {
+        let mut v = ab[..96].to_vec();
+        v.extend_from_slice(k1);
+        v.extend_from_slice(k2);
+        v
+    };
+    let mut out = Vec::new();
+    let mut case = |name: &str, bytes: Vec<u8>, want_ok: bool| {
+        let got = match VkPop::from_bytes(&bytes) {
+            Ok(vkpop) => {
+                let mut reg = KeyRegistration::initialize();
+                catch(move || if reg.register(10, &vkpop).is_ok() { "accepted".to_string() } else { "rejected".to_string() })
+            }
+            Err(_) => "rejected (decode)".to_string(),
+        };
+        let ok = got.starts_with("accepted");
+        out.push(format!("{}={}{}", name, if ok == want_ok { "" } else { "VIOLATED " }, got));
+    };
+    case("genuine", splice(&ab[96..144], &ab[144..192]), true);
+    case("k1_of_other_key", splice(&bb[96..144], &ab[144..192]), false);
+    case("k2_of_other_key", splice(&ab[96..144], &bb[144..192]), false);
+    case("both_of_other_key", splice(&bb[96..144], &bb[144..192]), false);
+    {
+        let vkpop = a.get_verification_key_proof_of_possession_for_concatenation();
+        let mut reg = KeyRegistration::initialize();
+        let first = reg.register(10, &vkpop).is_ok();
+        let second = reg.register(99, &vkpop).is_ok();
+        out.push(format!("same_key_twice={}{}/{}", if first && !second { "" } else { "VIOLATED " }, first, second));
+    }
+    out.join(" ")
 }
